@@ -2807,22 +2807,13 @@ func (s *swamp) CloneAndDeleteTreasuresByKeys(keys []string) ([]treasure.Treasur
 	// Iterate through all keys and process existing treasures
 	for _, key := range keys {
 		// Check if the treasure exists
-		if treasureObj := s.beaconKey.Get(key); treasureObj != nil {
-			// Start treasure guard with write lock (true = write lock)
-			lockerID := treasureObj.StartTreasureGuard(true)
-
-			// Clone the treasure before deletion
-			clonedTreasure := treasureObj.Clone(lockerID)
-
-			// Release the treasure guard
-			treasureObj.ReleaseTreasureGuard(lockerID)
-
-			// Add cloned treasure to result
+		// Delete the treasure from the swamp (permanent deletion, not shadow delete)
+		// and hand out the clone deleteHandler took under the same guard: cloning
+		// first and deleting afterwards under a second guard let another request
+		// change or remove the record in between, so the caller could receive a
+		// record it did not remove (or one already wiped by a concurrent delete).
+		if clonedTreasure := s.deleteHandler(key, false); clonedTreasure != nil {
 			result = append(result, clonedTreasure)
-
-			// Delete the treasure from the swamp (permanent deletion, not shadow delete)
-			// This is similar to CloneAndDeleteExpiredTreasures where we always do real deletion
-			s.deleteHandler(key, false)
 		}
 		// Missing keys are silently ignored (as per specification)
 	}
@@ -2948,7 +2939,9 @@ func (s *swamp) sendSwampInfo() {
 
 }
 
-// deleteHandler deletes the treasure from the swamp
+// deleteHandler removes the record and returns a clone of it as it was right
+// before the removal (nil if there was nothing to remove, or somebody else
+// removed it first).
 func (s *swamp) deleteHandler(key string, shadowDelete bool) (deletedTreasure treasure.Treasure) {
 
 	// clone the treasure itself to the clonedTreasure
@@ -3002,7 +2995,7 @@ func (s *swamp) deleteHandler(key string, shadowDelete bool) (deletedTreasure tr
 	s.sendDeletedEventToClient(clonedTreasure)
 	s.sendSwampInfo()
 
-	return treasureObj
+	return clonedTreasure
 
 }
 
